@@ -398,7 +398,7 @@ def _private_to_module(key, f):
 
 
 TINY_BLOCKS = 6
-FLATTEN_TINY = bool(os.environ.get("VERIF_FLATTEN_TINY"))     # work in progress: canonical flattening of tiny private helpers
+FLATTEN_TINY = not os.environ.get("VERIF_NO_FLATTEN_TINY")   # canonical form: tiny pure private helpers are always flattened
 
 
 def _is_tiny(f):
@@ -523,6 +523,8 @@ COMBINATORS = {
     "std::option::Option::<T>::is_none_or": (OPT, "Some", 1, ("ret",), ("bool", 1)),
     "std::option::Option::<T>::unwrap_or_else": (OPT, "None", 1, ("ret",), ("payload",)),
     "std::option::Option::<T>::filter": (OPT, "Some", 1, ("filter",), ("unit", "None")),
+    "std::result::Result::<T, E>::unwrap_or_else": (RES, "Err", 1, ("ret",), ("payload",)),
+    "std::result::Result::<T, E>::and_then": (RES, "Ok", 1, ("ret",), ("rewrap", "Err")),
     "std::result::Result::<T, E>::map": (RES, "Ok", 1, ("wrap", "Ok"), ("rewrap", "Err")),
     "std::result::Result::<T, E>::map_err": (RES, "Err", 1, ("wrap", "Err"), ("rewrap", "Ok")),
 }
@@ -762,7 +764,9 @@ def inline_helpers(j, log=None):
             forced = g in FORCE_INLINE
             if not forced and not _private_to_module(g, f):
                 continue
-            tiny = FLATTEN_TINY and _is_tiny(f)
+            # tiny in the reference tree as well (or new): a function that merely *became* small keeps its identity, so that a
+            # rule anchored on it judges its (possibly broken) body instead of an empty stub
+            tiny = FLATTEN_TINY and _is_tiny(f) and (g not in ref or reference()["fns"].get(g, {}).get("tiny", False))
             if not forced and not tiny and name in words and (g in ref or not ref):
                 continue            # a function the rules may anchor on (tiny closure-free helpers are always flattened:
                 #                     the rules are written against the flattened form, so inlining them by hand changes nothing)
